@@ -601,4 +601,112 @@ def zero_length(repo: Repo) -> RuleRun:
 
 zero_length.rule_id = "C16.ZERO-LENGTH"
 
-RULES = [knot_dependence, end_pairing, interface, closest_param_search, stale_alias, none_tests, no_memo, bounds_respected, range_start, no_stale_lazy_cache, unit_axis, deep_copy, queries_read_only, zero_length]
+# (method, attribute) pairs that may be written outside constructors / transformations, with the reason
+CURVE_STATE_WRITERS = {
+    ("construct.curves.interpolators.InterpolatorBase.__call__", "function"): "the interpolation function is rebuilt on demand after invalidate() (C16.NO-STALE-CACHE checks the invalidation)",
+    ("construct.curves.interpolators.InterpolatorBase.__call__", "_valid"): "flag of the same on-demand rebuild",
+    ("construct.curves.interpolators.InterpolatorBase.invalidate", "_valid"): "the invalidation itself",
+}
+
+
+def queries_stateless(repo: Repo) -> RuleRun:
+    """'the closest-parameter query returns a parameter whose point is at least as close ... as any densely sampled point' - for
+    every query, whatever was asked before: points, lengths and closest parameters are functions of the curve and the arguments.
+    A query method that stores something on the curve (the last result as the next starting guess) makes the answer depend on
+    the history of calls. In the curve classes only constructors, the transformations and the listed on-demand rebuild write to
+    self."""
+    r = RuleRun(PROP, "C16.QUERIES-STATELESS", floor=20, what="no query method of a curve class stores anything on the curve (results do not depend on earlier queries)")
+    WRITERS = ("__init__", "__post_init__", "translate", "rotate", "scale", "mirror", "shear", "transform", "invalidate")
+    n = 0
+    for fn in sorted(repo.all_functions(), key=lambda f_: f_.qualname):
+        if fn.cls is None or not fn.module.name.split("classy_blocks.")[-1].startswith("construct.curves"):
+            continue
+        n += 1
+        stores = []
+        for node in ast.walk(fn.node):
+            targets = node.targets if isinstance(node, ast.Assign) else [node.target] if isinstance(node, (ast.AugAssign, ast.AnnAssign)) else []
+            for t in targets:
+                for tt in ([t] if not isinstance(t, (ast.Tuple, ast.List)) else t.elts):
+                    if isinstance(tt, ast.Attribute) and fn.params and attr_chain(tt.value) == fn.params[0]:
+                        stores.append((tt.attr, node))
+        unexplained = [(a, nd) for a, nd in stores if fn.name not in WRITERS and (fn.qualname, a) not in CURVE_STATE_WRITERS]
+        r.check(
+            not unexplained,
+            fn,
+            f"{fn.qualname}: {'writes ' + str(sorted({a for a, _ in stores})) if stores else 'stores nothing on the curve'}",
+            f"{fn.qualname} stores '{unexplained[0][0] if unexplained else ''}' on the curve ('{ast.unparse(unexplained[0][1])[:70] if unexplained else ''}'): a query that remembers something of the call makes later "
+            "answers depend on earlier ones - two vertices next to different legs of a hairpin curve get the same parameter, the edge between them length 0",
+            unexplained[0][1] if unexplained else fn.node,
+            key="stateless",
+        )
+        # class-level mutable / optional state introduced for a query shows up as an annotated class variable read by a query
+    r.require(n >= 20, f"only {n} methods of curve classes found")
+    return r
+
+
+queries_stateless.rule_id = "C16.QUERIES-STATELESS"
+
+
+def all_components(repo: Repo) -> RuleRun:
+    """'an interpolated curve passes through its defining points ... the length ... equals the polyline length': curves live in
+    3-D. Every length in the curve package is taken over all three coordinates: a chord computed with hypot(dx, dy), a norm of the
+    first two columns or a root of x^2 + y^2 gives a segment parallel to z zero length - two defining points then share one
+    parameter and the curve skips that segment. Expected count zero; the matcher is exercised on an embedded example."""
+    r = RuleRun(PROP, "C16.ALL-COMPONENTS", floor=1, what="no length in the curve package is computed from fewer than three coordinates (hypot of two components, norm of two columns, sqrt(x^2 + y^2))")
+
+    def hits(tree):
+        out = []
+        for n in ast.walk(tree):
+            if isinstance(n, ast.Call):
+                nm = (attr_chain(n.func) or "").split(".")[-1]
+                if nm == "hypot":
+                    out.append((n, "hypot takes two components"))
+                if nm in ("norm", "sqrt", "sum") and n.args:
+                    for sub in ast.walk(n.args[0]):
+                        if isinstance(sub, ast.Subscript):
+                            sl = sub.slice.elts[-1] if isinstance(sub.slice, ast.Tuple) and sub.slice.elts else sub.slice
+                            if isinstance(sl, ast.Slice) and isinstance(sl.upper, ast.Constant) and sl.upper.value == 2 and sl.lower is None and isinstance(sub.slice, ast.Tuple):
+                                out.append((n, "only the first two columns are used"))
+                                break
+                if nm == "sqrt" and n.args:
+                    idx = set()
+                    for sub in ast.walk(n.args[0]):
+                        if isinstance(sub, ast.Subscript):
+                            sl = sub.slice.elts[-1] if isinstance(sub.slice, ast.Tuple) and sub.slice.elts else sub.slice
+                            if isinstance(sl, ast.Constant) and isinstance(sl.value, int):
+                                idx.add(sl.value)
+                    if idx and idx < {0, 1, 2} and any(isinstance(x, ast.BinOp) and isinstance(x.op, ast.Pow) for x in ast.walk(n.args[0])):
+                        out.append((n, f"only the components {sorted(idx)} are squared"))
+        return out
+
+    probe = ast.parse("def f(s):\n    a = np.hypot(s[:, 0], s[:, 1])\n    b = np.linalg.norm(s[:, :2], axis=1)\n    c = np.sqrt(s[:, 0] ** 2 + s[:, 1] ** 2)\n    d = np.sqrt(np.sum((p[:-1] - p[1:]) ** 2, axis=1))")
+    got = hits(probe)
+    if len(got) != 3:
+        raise AnalysisError(f"C16.ALL-COMPONENTS: the matcher finds {len(got)} of its 3 embedded positive examples (and must stay silent on the full-length one)")
+    n = 0
+    for fn in sorted(repo.all_functions(), key=lambda f_: f_.qualname):
+        short = fn.module.name.split("classy_blocks.")[-1]
+        if not (short.startswith("construct.curves") or short.startswith("construct.array")):
+            continue
+        n += 1
+        for k, (node, why) in enumerate(hits(fn.node)):
+            r.bad(fn, f"{fn.qualname}: '{ast.unparse(node)[:80]}' - {why}: a length in the x-y plane only; a segment of the curve that runs parallel to z gets length 0, so two defining points share one parameter and the curve between them is skipped", node, key=f"planar#{k}")
+    r.ok(None, f"{n} functions of the curve package scanned; matcher verified on its embedded examples", key="scan")
+    return r
+
+
+all_components.rule_id = "C16.ALL-COMPONENTS"
+
+
+def invalidate_last(repo: Repo) -> RuleRun:
+    """'points, lengths and closest parameters describe the same curve' after a transformation by list, too: a parts getter that invalidates the interpolation is read after everything that re-creates it. Same rule as C09.INVALIDATE-LAST."""
+    from ..report import rebrand
+    from . import c09
+
+    return rebrand(c09.invalidate_last(repo), PROP, "C16.INVALIDATE-LAST")
+
+
+invalidate_last.rule_id = "C16.INVALIDATE-LAST"
+
+
+RULES = [knot_dependence, end_pairing, interface, closest_param_search, stale_alias, none_tests, no_memo, bounds_respected, range_start, no_stale_lazy_cache, unit_axis, deep_copy, queries_read_only, zero_length, queries_stateless, all_components, invalidate_last]
